@@ -249,7 +249,8 @@ func NewTypecast(scope *types.Scope, imports util.ImportNames, t types.Type, inn
 	switch typ := util.DerefPtr(t).(type) {
 	case *types.Named:
 		// If the type is predeclared (it has no package, e.g. error) or defined within the current package.
-		if typ.Obj().Pkg() == nil || scope.Lookup(typ.Obj().Name()) != nil {
+		// Another object of the current package that merely has the same name does not make the type local.
+		if typ.Obj().Pkg() == nil || scope.Lookup(typ.Obj().Name()) == typ.Obj() {
 			expr = typ.Obj().Name()
 		} else if pkgName, ok := imports.LookupName(typ.Obj().Pkg().Path()); ok {
 			expr = fmt.Sprintf("%v.%v", pkgName, typ.Obj().Name())
